@@ -7,6 +7,7 @@ import (
 	"fmt"
 	"go/types"
 	"os"
+	"strings"
 
 	"golang.org/x/tools/go/ssa"
 )
@@ -210,6 +211,21 @@ func checkC02(c *Check) {
 	}
 	capValBE := func(e *Expr) bool { return isCallNamed(e, "be32") && isFieldRead(e.Args[0], "Value") }
 	isMulticast := func(e *Expr) bool { return isCallNamed(e, "netip.Addr.IsMulticast") }
+	// the address tested for multicast is the OPEN's BGP Identifier
+	{
+		a := NewAnalysis(p, validate)
+		a.Run()
+		n := 0
+		for _, cl := range p.callsIn(validate, descIs("netip.Addr.IsMulticast")) {
+			for _, args := range a.callArgsAt(cl) {
+				n++
+				ok := len(args) == 1 && isCallNamed(args[0], "netip.AddrFrom4") && strings.Contains(args[0].Key, "bytes:be32(") && strings.Contains(args[0].Key, "fa:bgpID(")
+				c.require(ok, "C02.1 identifier-tested", "openMessage.validate", "IsMulticast argument", p.InstrPos(cl.(ssa.Instruction)),
+					"the multicast test is made on AddrFrom4(big-endian octets of the OPEN's bgpID); got "+trunc(args[0].Key, 80))
+			}
+		}
+		c.floor("C02.1 identifier-tested", n, 1, "IsMulticast tests in validate")
+	}
 
 	u8 := isRange(0, 255)
 	u16 := isRange(0, 65535)
